@@ -17,6 +17,8 @@ BASE = json.load(open("/root/.vp/BASELINE.json"))["stable_pass"]
 RUN_TESTS = "--no-tests" not in sys.argv
 SEED_OUT = os.environ.get("SEED_OUT", "seed_out")
 PREFIX = os.environ.get("SEED_PREFIX", "")
+VCHECK = os.environ.get("VCHECK", "/verif/vcheck")  # another checkout of /verif can be triaged (generalisation baseline)
+TRIAGE_JSON = os.environ.get("TRIAGE_JSON", "/tmp/seed/triage.json")
 
 
 def sh(cmd, cwd=None, env=None, timeout=1500):
@@ -62,7 +64,7 @@ def one(wt: Path):
             except Exception as e:
                 r["tests_missing"] = [f"junit error {e}"]
             Path(jx).unlink(missing_ok=True)
-        rcv, ov = sh(f"/verif/vcheck --all --repo {wt}", cwd="/verif", env={"ODCVERIF_EVIDENCE_DIR": f"/tmp/seed/ev_{pid}_{PREFIX}{sd.name}"})
+        rcv, ov = sh(f"{VCHECK} --all --repo {wt}", cwd=str(Path(VCHECK).parent), env={"ODCVERIF_EVIDENCE_DIR": f"/tmp/seed/ev_{pid}_{PREFIX}{sd.name}"})
         flagged = {}
         cur = None
         for ln in ov.splitlines():
@@ -86,7 +88,7 @@ def main():
         for rs in ex.map(one, wts):
             allres.extend(rs)
     old = []
-    tj = Path("/tmp/seed/triage.json")
+    tj = Path(TRIAGE_JSON)
     if tj.exists():
         prev = {(x["property"], x["seed"]): x for x in json.load(open(tj))}
         for r in allres:
